@@ -52,6 +52,7 @@ func init() {
 }
 
 func runC19(p *chk.Prog, r *chk.Report) {
+	scratchRule(p, r, frrPkg, "internal/k8s/controllers")
 	c19Debouncer(p, r)
 	c19Submit(p, r)
 	c19NoReach(p, r)
@@ -238,7 +239,8 @@ func c19Debouncer(p *chk.Prog, r *chk.Report) {
 		w := g.BranchAlways(e, lf.IsAssignPat("TO", "time.After(D)", chk.H("D", isParamIdx(f, 3))))
 		// the failing branch never clears the flag and does not fall into the clearing code
 		start := chk.Site{G: g, B: e.B.Succs[e.K], I: -1}
-		w2 := (&chk.Walk{G: g, From: start, Hit: lf.IsAssignPat("T", "false", chk.H("T", isTS)), Stop: func(n ast.Node) bool { return !chk.Encloses(timeout, n) }}).Run()
+		w2 := (&chk.Walk{G: g, From: start, Hit: lf.IsAssignPat("T", "false", chk.H("T", isTS)), Stop: func(n ast.Node) bool { return !chk.Encloses(timeout, n) },
+			Cut: func(b *cfgBlock, k int) bool { return chk.BlockOutside(b.Succs[k], timeout) }}).Run()
 		rt.Check("debouncer:failure-rearms-and-keeps-flag", posOf(w, lf), !w.Found && !w2.Found, "", "a failing reload does not re-arm the timer with the retry interval while keeping the timer flag set")
 	}
 	// body is called with the variable itself (not a derived value)
